@@ -128,11 +128,16 @@ MARKUP = ["%", "%s", "%d", "100%", "%%", "%(x)s", "{0}", "{}", "{x}", "$", "${x}
           " - ", " \u2013 ", "\\\"", "\\n", "\\t", "\\\\", "|", "~", "^", "`", "@", "*", "!", "?", ":", "+", "_",
           # pattern / replacement syntax (to code that interpolates chart text into a regular expression or a re.sub replacement)
           "\\1", "\\g<0>", "\\0", ".*", "(?i)", "[a-z]", "(", ")", "a|b", "\\b", "\\d+", "$1"]
+# characters without a glyph that pasted text carries (zero-width no-break space = U+FEFF away from the start of a file, zero-width
+# space / joiner, left-to-right mark, soft hyphen, word joiner): they are text like any other
+INVISIBLE = ["\ufeff", "\u200b", "\u200d", "\u200e", "\u00ad", "\u2060"]
+# the names of the event kinds themselves, as words of ordinary text ("text on", "texture", "lyrics", "sectional")
+KIND_WORDS = ["text ", "text", "Text ", "texture", "lyrics", "sectional", "E ", " = E ", "event "]
 TEXT_ALPHABET = ["a", "b", "Z", "1", " ", " ", "\"", "=", "[", "]", "{", "}", "\\", "\t", "\u00a0", "\u3000", "\u00e9", "e\u0301", "\u212b",
-                 "\u00df", "\u4e16", "lyric", "section", "lyric ", "section ", "LYRIC ", "Section ", "-", "'", ",", ".", "E"] * 2 + MARKUP
+                 "\u00df", "\u4e16", "lyric", "section", "lyric ", "section ", "LYRIC ", "Section ", "-", "'", ",", ".", "E"] * 2 + MARKUP + INVISIBLE + KIND_WORDS
 VALUE_ALPHABET = ["a", "b", "Q", "7", " ", "\"", "=", ",", "\t", "\u00e9", "\u4e16", "'", "-", ".", "(", ")", "\u00a0",
                   "e\u0301", "\u2126", "\u212b", "\uf900", "\u304b\u3099", "\u1100\u1161", "\ufb01",  # incl. text that is not NFC/NFKC-normalised
-                  "/", "//", " // ", "#", ";", "\\", "%", "{", "}", "[", "]"] * 2 + MARKUP
+                  "/", "//", " // ", "#", ";", "\\", "%", "{", "}", "[", "]"] * 2 + MARKUP + INVISIBLE
 
 
 def gen_word(rng: random.Random) -> str:
@@ -155,7 +160,7 @@ def gen_event_text(rng: random.Random, hostile: bool) -> tuple[str, str, str | N
                             "say \\\"hi\\\"", "rock&roll", "$$$", "{x}", "%s"])
             return "lyric " + v, "lyric", v
         v = rng.choice(["phrase_start", "phrase_end", "music_start", "end", "crowd_clap", "idle", "coda", "end", "music_end", "100%", "%d bars",
-                        "<b>", "a - b"])
+                        "<b>", "a - b", "text on", "text", "texture off", "lyrics on", "sectional", "event x", "key = E minor", "zero\u200bwidth"])
         return v, "text", v
     body = "".join(rng.choice(TEXT_ALPHABET) for _ in range(rng.randint(0, 8)))
     if r < 0.3:
@@ -185,7 +190,8 @@ def gen_string_value(rng: random.Random, hostile: bool) -> str:
         return rng.choice(["Song Name", "The Artist", "charter42", "Album (Deluxe)", ", 2018", "song.ogg", "guitar.ogg",
                            "rock", "cd", "Motörhead", "テスト", "Knights of Cydonia - Live at Wembley", "AC/DC - T.N.T.", "<color=#00FF00>Nick</color>",
                            "<b>power</b> metal", "\u201cHeroes\u201d", "Die \u201eToten Hosen\u201c", "12\u201d Singles", "100% (Remix)", "R&B", "a - b",
-                           "Album <size=10>(Special Edition)</size>", "50%s off", "{0} - {1}", "C:\\songs\\x.ogg"])
+                           "Album <size=10>(Special Edition)</size>", "50%s off", "{0} - {1}", "C:\\songs\\x.ogg", "Pasted\ufeff Name", "soft\u00adhyphen",
+                           "Through the Fire {Live}", "Intro {} Outro", "Medley {1/3}"])
     r = rng.random()
     if r < 0.2:
         f = rng.choice(list(PASCAL.values()))
@@ -417,7 +423,10 @@ def group_lines(rng: random.Random | None, g: dict, zeros: bool = False, pad: bo
         rng.shuffle(rest)
     out = []
     for idx, ln in first + rest:
-        out.append(pad_line(rng, f"{fmt_int(rng, t, zeros)} = N {idx} {fmt_int(rng, ln, zeros)}", pad))
+        line = pad_line(rng, f"{fmt_int(rng, t, zeros)} = N {idx} {fmt_int(rng, ln, zeros)}", pad)
+        if idx in (5, 6) and rng is not None and rng.random() < 0.4:
+            line += " "  # as Moonscraper itself writes flag lines: "825 = N 5 0 " (tests/data/test.chart has them)
+        out.append(line)
     return out
 
 
